@@ -40,6 +40,7 @@ import (
 
 	"github.com/mutagen-io/mutagen/pkg/filesystem/behavior"
 	"github.com/mutagen-io/mutagen/pkg/synchronization/core"
+	"github.com/mutagen-io/mutagen/pkg/synchronization/core/ignore"
 	"github.com/mutagen-io/mutagen/pkg/synchronization/core/ignore/docker"
 
 	"verif/harness/hx"
@@ -487,7 +488,32 @@ func main() {
 				}
 			}
 
-			impl := fmt.Sprintf("S=%s;N=%d;M=%s;C=%s;D=%s;H=%s", show(S), count, show(M), show(C), show(D), map[bool]string{true: "1", false: "0"}[H])
+			// --- the ignorer itself, node by node
+			var I []string
+			contractBroken := ""
+			for _, n := range nodes {
+				st, cont := ig.Ignore(n.path, n.kind == 'd')
+				s := "n"
+				switch st {
+				case ignore.IgnoreStatusIgnored:
+					s = "i"
+				case ignore.IgnoreStatusUnignored:
+					s = "u"
+				}
+				if cont {
+					s += "1"
+					if n.kind != 'd' || st == ignore.IgnoreStatusUnignored {
+						// the Ignorer contract: continue only for directories that are
+						// nominal or ignored
+						contractBroken = n.path
+					}
+				} else {
+					s += "0"
+				}
+				I = append(I, s)
+			}
+
+			impl := fmt.Sprintf("I=%s;S=%s;N=%d;M=%s;C=%s;D=%s;H=%s", show(I), show(S), count, show(M), show(C), show(D), map[bool]string{true: "1", false: "0"}[H])
 
 			// --- oracle
 			oracle := ""
@@ -495,6 +521,9 @@ func main() {
 				if oracle == "" {
 					oracle = fmt.Sprintf(format, a...)
 				}
+			}
+			if contractBroken != "" {
+				fail("class=continue-contract traversal continuation requested for %q (not a nominal/ignored directory)", contractBroken)
 			}
 			if show(M) != show(C) {
 				if !H {
@@ -629,10 +658,65 @@ func main() {
 			c.Case(line, impl, oracle, key)
 		}
 
+		// doC: one pattern through the cleaning of docker/ignore.go and
+		// patternmatcher.New. want != nil carries the generator's expectation
+		// (exclusion flag, cleaned text) for structurally built patterns.
+		doC := func(p string, want *[2]string) {
+			line := "c " + hexs(p)
+			if strings.ContainsAny(p, "[]") {
+				c.Case(line, "unsupported", "", "")
+				return
+			}
+			oracle := ""
+			impl := hx.Try(func() string {
+				mt, err := docker.VerifC15New([]string{p})
+				if err != nil {
+					k := "bad"
+					switch msg := err.Error(); {
+					case strings.Contains(msg, "escape sequences"):
+						k = "backslash"
+					case strings.Contains(msg, "whitespace-only negated pattern"):
+						k = "negated-empty"
+					case strings.Contains(msg, "whitespace-only pattern"):
+						k = "empty"
+					case strings.Contains(msg, "root pattern"):
+						k = "root"
+					case strings.Contains(msg, "illegal exclusion pattern"):
+						k = "illegal-exclusion"
+					}
+					c.Count("c:err:" + k)
+					if want != nil {
+						oracle = fmt.Sprintf("class=clean-rejects-wellformed %q: %v", p, err)
+					}
+					return "err " + k
+				}
+				if mt.Count() != 1 {
+					return "err dropped"
+				}
+				k := "i"
+				if mt.Exclusion(0) {
+					k = "x"
+				}
+				c.Count("c:ok")
+				if want != nil && (k != want[0] || mt.Cleaned(0) != want[1]) {
+					oracle = fmt.Sprintf("class=clean-fields %q cleaned to %s %q, expected %s %q", p, k, mt.Cleaned(0), want[0], want[1])
+				}
+				return "ok " + k + " " + hexs(mt.Cleaned(0))
+			})
+			if strings.HasPrefix(impl, "panic:") {
+				oracle = "class=panic " + impl
+			}
+			c.Case(line, impl, oracle, "c"+impl)
+		}
+
 		if lines := c.ReplayLines(); lines != nil {
 			c.Note("replay rebuilds the pattern list from the cleaned patterns of the line (cleaning is idempotent) and recomputes the match table with the real Pattern.match")
 			for _, l := range lines {
 				f := strings.Fields(l)
+				if len(f) == 2 && f[0] == "c" {
+					doC(unhex(f[1]), nil)
+					continue
+				}
 				if len(f) != 4 || f[0] != "w" {
 					c.Case(l, "bad-op", "", "")
 					continue
@@ -673,6 +757,45 @@ func main() {
 		}
 
 		r := c.R
+		// Pattern cleaning: structurally built patterns (expectation known) and free text.
+		segs := []string{"a", "b", "ab", "*", "**", "?", "a*", "*.x", "d.x", "é"}
+		for i := 0; i < c.Size(4000, 60000); i++ {
+			if r.Chance(1, 3) {
+				chunks := []string{"a", "b", "/", "//", ".", "..", "./", "../", "!", " ", "\t", "*", "**", "\\", "é", "!!", "/.", "a/.."}
+				var b strings.Builder
+				for n := 1 + r.Intn(5); n > 0; n-- {
+					b.WriteString(chunks[r.Intn(len(chunks))])
+				}
+				doC(b.String(), nil)
+				continue
+			}
+			n := 1 + r.Intn(3)
+			parts := make([]string, n)
+			for j := range parts {
+				parts[j] = segs[r.Intn(len(segs))]
+			}
+			body := strings.Join(parts, "/")
+			p := body
+			if r.Chance(1, 3) {
+				p = "/" + p
+			}
+			if r.Chance(1, 4) {
+				p += "/"
+			}
+			neg := r.Chance(1, 3)
+			if neg {
+				p = "!" + r.Pick("", "", " ") + p
+			}
+			p = r.Pick("", "", " ", "\t") + p + r.Pick("", "", " ")
+			k := "i"
+			if neg {
+				k = "x"
+			}
+			doC(p, &[2]string{k, body})
+		}
+		for _, p := range []string{"", " ", "!", "! ", "/", "!/", "//", "a\\b", "!../../a", "..", "!..", ".", "!.", "a/..", "!a/..", "/..", "./a", " !a", "! a ", "!!a"} {
+			doC(p, nil)
+		}
 		// The witness of DESIGN.md §8 C15 first, then its neighbourhood.
 		witness := []*tnode{{name: "a", kind: 'd', children: []*tnode{{name: "b", kind: 'f'}}}}
 		run([]string{"!a/b", "a"}, witness, nil)
